@@ -81,12 +81,29 @@ def run(ctx):
             ctx.violation("C05:unsound-sidecar:concurrent-flushers", f"with {c['flushers']} concurrent flushers the metadata on disk claimed a chunk that was not yet written", rep)
         if r.get("shrunk"):
             ctx.violation("C05:version-went-back", f"with {c['flushers']} concurrent flushers a later version on disk claims fewer chunks than an earlier one", rep)
+    # whole transfers with an observer: sidecars flushed (as the signal handler does) and loaded from disk continuously, every claimed
+    # chunk compared with the source at that instant - windows without a hook point (inside a chunk write) are sampled this way
+    M = 1 << 20
+    ocases = [{"name": f"observe-{i}", "files": [{"p": "big.bin", "n": n, "s": 900 + i}, {"p": "s.bin", "n": 3 * ch + 7, "s": 950 + i}], "chunk": ch, "streams": st,
+               "conns": 1, "transport": tr, "noroot": True, "resume": True, "observe": True, "timeout_ms": 30000}
+              for i, (n, ch, st, tr) in enumerate([(24 * M, 4 * M, 2, "netsim"), (16 * M + 5, 8 * M, 1, "mock"), (12 * M, 2 * M, 3, "netsim")]
+                                                  + ([(rng.range(8, 40) * M + rng.below(999), rng.choice([1, 2, 4, 8]) * M, rng.range(1, 4), rng.choice(["netsim", "mock"])) for _ in range(5)] if ctx.tier == "thorough" else []))]
+    rco, ores = G2.run_xfer(ctx, exe, "observe", ocases, timeout=600)
+    ctx.oblige("harness:observe", rco == 0 and len(ores) == len(ocases), ctx.harness_stderr[-300:])
+    obs_n = 0
+    for c, r in zip(ocases, ores):
+        obs_n += r.get("observations", 0)
+        if r.get("unsound"):
+            ctx.violation("C05:unsound-sidecar:observed", f"during {c['name']} {r['unsound'][0]} (a kill at that instant would leave metadata claiming a chunk that is not in the file)",
+                          {"case": c, "result": r})
+        if r.get("note"):
+            ctx.oblige(f"run:{c['name']}", False, r["note"][:200])
     bigs = G2.big_cases(rng, ctx.tier == "thorough")
     rcb, bres = G2.run_xfer(ctx, exe, "big", bigs, timeout=600)
     ctx.oblige("harness:big", rcb == 0 and len(bres) == len(bigs), ctx.harness_stderr[-300:])
     nbig = G2.judge_big(ctx, "C05", bigs, bres)
     ctx.coverage.update({
-        "big_sparse_files_above_4GiB": nbig, "flush_storms": len(storms), "flush_storm_valid_observations": observations,
+        "big_sparse_files_above_4GiB": nbig, "flush_storms": len(storms), "observed_transfers": len(ocases), "sidecar_observations_during_transfers": obs_n, "flush_storm_valid_observations": observations,
         "evaluations": len(cases) + len(wl), "distinct_nontrivial": with_marks,
         "rule": "for each workload (fixed 3 + seeded), the real transfer over netsim runs in a child process that SIGKILLs itself at the k-th hit of each of 6 hook points "
                 "(before write, after write, after mark, between temp write and rename, after rename, before finalize) for every k (thorough) or a stride (quick), with and without "
